@@ -10,7 +10,7 @@ CONFIG = {'gen': ['NbnsDispatch', 'ServerFacts'],
          'and the answer for that request), LLMNR client routing (shuffled responses, non-responses and unknown ids against registered '
          'query channels, and Client.Query itself), Stop/Close at 10/200 random moments under traffic for the five loops (returns within a '
          '60 s watchdog, second call does not panic, goroutine count returns to the baseline within 30 s); distinct = distinct input line; '
-         'non-trivial = implementation output is a non-empty value LLMNR client routing: a third of the waiting ids are answered two to four times; if any waiter gets nothing, five further single responses to fresh ids must be delivered (liveness of the read loop); the stop scenario of the client includes an id that is answered continuously and never collected.',
+         'non-trivial = implementation output is a non-empty value LLMNR client routing: a third of the waiting ids are answered two to four times; if any waiter gets nothing, five further single responses to fresh ids must be delivered (liveness of the read loop); the stop scenario of the client includes an id that is answered continuously and never collected. Half of the LLMNR server scenarios (all stop scenarios) run with the HandlerDescribePacket of the library (which logs under logger.Lock) ahead of the answering handler and with debug mode on.',
  'assumptions': ["a handler goroutine's bytes are either a window of the loop buffer or its own copy: which one is the extracted fact "
                  'ServerFacts (taint of the `go` arguments from buffers made outside the loop; llmnr.DecodeMessage accepted as '
                  'non-retaining by a syntactic check of every use of its parameter)',
